@@ -304,12 +304,75 @@ def run(ctx):
     # ---------------------------------------------------------------- R11.7 subdivision solver invariants
     ctx.rule('R11.7', 'bezier_intersections: every sub-curve examined is the dyadic piece of its own input curve; each pair carries the mid '
                       'parameters of its two pieces; a pair is reported only on paths that know BOTH pieces\' boxes to be smaller than tol_deC', 4)
+    subdivision_scenarios(ctx, 'R11.7', [(1, [(0, 0)]), (1, [(0, 1)]), (1, [(1, 0)]), (2, [(1, 2)])])
+    subdivision_scenarios(ctx, 'R11.7', [(1, [(0, 0), (0, 1), (1, 0), (1, 1)])], mode='soundness')
+
+    # ---------------------------------------------------------------- R11.8 positions are compared with an absolute tolerance
+    ctx.rule('R11.8', 'point_to_t: an isclose() test between POSITIONS (values that move with a translation of the figure) has rtol = 0: a relative '
+                      'tolerance grows with the distance from the origin and accepts points that are not on the segment', 2)
+    SHIFT = Rat.csym('SHIFT')
+
+    def moves_with_translation(v, points):
+        """does the value change when every point of the figure is translated by SHIFT?"""
+        v = to_rat(v)
+        sub = {}
+        for nm in points:
+            sub[nm + '.re'] = Rat.sym(nm + '.re') + SHIFT.real()
+            sub[nm + '.im'] = Rat.sym(nm + '.im') + SHIFT.imag()
+        try:
+            return not (v.subst(sub) - v).is_zero()
+        except Exception:
+            return False
+
+    for label, build, points in (
+            ('Line', lambda it: it.construct('path.Line', Rat.csym('LS'), Rat.csym('LE')), ('LS', 'LE', 'QP')),
+            ('Arc', lambda it: sym_arc(it, 'A', True, True, rotation=Rat.const(0)), ('A.start', 'A.end', 'A.center', 'QP'))):
+        fpt = mdl.func('path.%s.point_to_t' % label)
+        calls = []
+
+        def isclose_hook(it, a, k, calls=calls):
+            calls.append((a[0], a[1], k.get('rtol', a[2] if len(a) > 2 else None)))
+            return False          # no comparison succeeds: execution goes on to the next one, so that all of them are seen
+
+        def th8(it, build=build, calls=calls):
+            del calls[:]
+            seg = build(it)
+            try:
+                it.call_method(seg, 'point_to_t', Rat.csym('QP'))
+            except Undecidable:
+                pass          # the comparisons made so far are what is judged
+            return list(calls)
+
+        def judge8(v, points=points, label=label):
+            if not v:
+                return None, 'point_to_t makes no isclose() comparison on this path'
+            for a, b, rtol in v:
+                if moves_with_translation(a, points) or moves_with_translation(b, points):
+                    if rtol is None or not to_rat(rtol).is_zero():
+                        return False, ('isclose(%s, %s) compares positions with a relative tolerance (rtol=%s): far from the origin it accepts points '
+                                       'up to rtol*|position| away' % (short(a, 30), short(b, 30), 'default 1e-5' if rtol is None else short(rtol, 10)))
+            return True, ''
+        opts8 = {'ext_hooks': {'numpy.isclose': isclose_hook}, 'no_fork': True}
+        if label == 'Arc':
+            opts8 = arc_opts(mdl, opts8)
+        ob('R11.8').run(fpt, '%s.point_to_t: position comparisons are absolute' % label, th8, judge8, allowed_raises=('AssertionError', 'ValueError'), opts=opts8)
+
+
+def subdivision_scenarios(ctx, rule, scenarios, mode='all'):
+    """mode: 'all' | 'soundness' (what is reported is justified) | 'once' (every group of accepted cells is reported exactly once).
+    bezier_intersections on a symbolic cubic x quadratic with CONCRETE bounding boxes realising a scenario (L, cells): at
+    subdivision level L (1 = halves, 2 = quarters) exactly the listed cells (piece index on the first curve, on the second) overlap
+    and are candidates for being small; their ancestors overlap (boxes = hulls of their children's boxes, known NOT to be small);
+    everything else, and every piece below level L, is disjoint.  Judged per label path: which pairs are reported, with which
+    parameters, and what the path knows about the box sizes.  Cells that share a piece are one crossing next to a piece boundary
+    (one report); cells that share none are distinct crossings (one report each)."""
+    mdl = ctx.model
+    ob = lambda r: Obligation(ctx, r)
     fbi = mdl.func('bezier.bezier_intersections')
     B1, B2 = cpoints(4, 'P'), cpoints(3, 'Q')
-    TOLD = Rat.sym('told')
+    TOLD, TOL = Rat.sym('told'), Rat.sym('tol')
 
     def decasteljau(P, lo, hi):
-        """control points of the piece [lo, hi] of the curve with control points P (exact)"""
         def split(P, t):
             left, right, cur = [P[0]], [P[-1]], list(P)
             while len(cur) > 1:
@@ -325,77 +388,115 @@ def run(ctx):
         return out
     pieces = {}
     for tag, P in (('B1', B1), ('B2', B2)):
-        for lvl in range(3):
+        for lvl in range(4):
             n = 2 ** lvl
             for i in range(n):
-                lo, hi = Fr(i, n), Fr(i + 1, n)
-                pieces[tuple(to_rat(x).key() for x in decasteljau(P, lo, hi))] = (tag, lo, hi)
+                pieces[tuple(to_rat(x).key() for x in decasteljau(P, Fr(i, n), Fr(i + 1, n)))] = (tag, lvl, i)
 
-    def box_of(tag, lo, hi, ab):
-        """concrete boxes realising one scenario: the roots overlap, of the four child pairs exactly (half ab[0] of the first curve,
-        half ab[1] of the second) overlap, no grandchildren overlap; all areas are distinct numbers"""
-        w = hi - lo
-        if w == 1:
-            return (0, 100, 0, 100 if tag == 'B1' else 50)
-        if w == Fr(1, 2):
-            half = int(lo * 2)
-            if tag == 'B1':
-                return (0, 1, 0, 1) if half == ab[0] else (10, 11, 0, 3)
-            return (0, 1, 0, 2) if half == ab[1] else (20, 21, 0, 4)
-        q = int(lo * 4)
-        base = 100 if tag == 'B1' else 200
-        return (base + 10 * q, base + 10 * q + 1, 0, 5 + q + (4 if tag == 'B2' else 0))
+    def hull(boxes):
+        return (min(b[0] for b in boxes), max(b[1] for b in boxes), min(b[2] for b in boxes), max(b[3] for b in boxes))
+
+    def box_of(tag, lvl, i, L, cells):
+        if lvl > L:                       # below the scenario level: pairwise disjoint
+            return (1000 + 10 * i, 1001 + 10 * i, 100 * lvl + (50 if tag == 'B2' else 0), 100 * lvl + (50 if tag == 'B2' else 0) + 1)
+        if lvl < L:
+            return hull([box_of(tag, lvl + 1, 2 * i, L, cells), box_of(tag, lvl + 1, 2 * i + 1, L, cells)])
+        if tag == 'B1':
+            return (10 * i, 10 * i + 1, 0, 1)                                    # area 1
+        partners = [a for a, b in cells if b == i]
+        if partners:
+            return (10 * min(partners), 10 * max(partners) + 1, Fr(i, 8), 2 + Fr(i, 8))    # area 2 (22 when it meets two neighbours); parents' hulls are larger
+        sib = [a for a, b in cells if b == (i ^ 1)]
+        x0 = 10 * min(sib) if sib else 0
+        return (x0, x0 + 1, 5, 6)                                                # out of reach of every piece of the first curve
 
     def area(box):
         return Fr((box[1] - box[0]) * (box[3] - box[2]))
 
-    for ab in ((0, 0), (0, 1), (1, 0), (1, 1)):
+    def mid(lvl, i):
+        return Fr(2 * i + 1, 2 ** (lvl + 1))
+
+    for L, cells in scenarios:
         log = {'unknown': []}
 
-        def bbox_hook(it, a, k, log=log, ab=ab):
+        def bbox_hook(it, a, k, log=log, L=L, cells=cells):
             key = tuple(to_rat(x).key() for x in it.iterate(a[0]))
             pc = pieces.get(key)
             if pc is None:
                 log['unknown'].append(key)
-                return (1000, 1001, 1000, 1001)
-            return tuple(Rat.const(v) for v in box_of(pc[0], pc[1], pc[2], ab))
+                return (5000, 5001, 5000, 5001)
+            return tuple(Rat.const(v) for v in box_of(pc[0], pc[1], pc[2], L, cells))
+
+        def pt_hook(it, a, k):
+            return Rat.csym('PT_%s' % to_rat(a[1]).key().replace('/', 'o').replace('*', '').replace(' ', ''))
 
         def th7(it, log=log):
             log['unknown'][:] = []
-            r = it.call(it.closure_of('bezier.bezier_intersections'), [list(B1), list(B2), Rat.sym('LL')], {'tol': Rat.sym('tol'), 'tol_deC': TOLD})
+            r = it.call(it.closure_of('bezier.bezier_intersections'), [list(B1), list(B2), Rat.sym('LL')], {'tol': TOL, 'tol_deC': TOLD})
             return list(r), list(log['unknown']), it
 
-        def judge7(v, ab=ab):
+        def judge7(v, L=L, cells=cells):
             r, unknown, it = v
             if unknown:
                 return False, 'a sub-curve is examined that is not a dyadic piece [i/2^k, (i+1)/2^k] of an input curve (wrong halving)'
-            if len(r) > 1:
-                return False, 'one overlapping pair reported %d times' % len(r)
+
+            def known_small(tag, i):
+                return path_sign(it, Rat.const(area(box_of(tag, L, i, L, cells))) - TOLD) == frozenset('-')
+            got = set()
             for t1, t2 in r:
                 t1, t2 = to_rat(t1), to_rat(t2)
-                hit = None
-                for pa in pieces.values():
-                    for pb in pieces.values():
-                        if pa[0] == 'B1' and pb[0] == 'B2' and pa[2] - pa[1] == pb[2] - pb[1] and \
-                                t1.equals(Rat.const((pa[1] + pa[2]) / 2)) and t2.equals(Rat.const((pb[1] + pb[2]) / 2)):
-                            hit = (pa, pb)
-                if hit is None:
-                    return False, ('reported (%s, %s) are not the mid parameters of a pair of pieces of equal depth (t1 on the first curve, t2 on the second)'
-                                   % (short(t1, 20), short(t2, 20)))
-                (pa, pb) = hit
-                w = pa[2] - pa[1]
-                if w == Fr(1, 2) and (int(pa[1] * 2), int(pb[1] * 2)) != ab:
-                    return False, 'a crossing is reported for the halves %s although their boxes are disjoint' % ((int(pa[1] * 2), int(pb[1] * 2)),)
-                if w == Fr(1, 4):
-                    return False, 'a crossing is reported for quarter pieces whose boxes are disjoint'
-                for pc in hit:
-                    sg = path_sign(it, Rat.const(area(box_of(pc[0], pc[1], pc[2], ab))) - TOLD)
-                    if sg != frozenset('-'):
-                        return False, ('a crossing is reported without knowing that the box of the piece [%s, %s] of %s is smaller than tol_deC: '
-                                       'its parameter is only known to +-%s' % (pc[1], pc[2], 'the first curve' if pc[0] == 'B1' else 'the second curve', (pc[2] - pc[1]) / 2))
+                hit = [(a, b) for a in range(2 ** L) for b in range(2 ** L) if t1.equals(Rat.const(mid(L, a))) and t2.equals(Rat.const(mid(L, b)))]
+                if not hit:
+                    return False, ('reported (%s, %s) are not the mid parameters of a pair of level-%d pieces (t1 on the first curve, t2 on the second)'
+                                   % (short(t1, 20), short(t2, 20), L))
+                if hit[0] in got:
+                    return False, 'the pair of pieces %s is reported twice' % (hit[0],)
+                got.add(hit[0])
+            for a, b in sorted(got):
+                if mode == 'once':
+                    break
+                if (a, b) not in cells:
+                    return False, 'a crossing is reported for the pieces %s whose boxes are disjoint' % ((a, b),)
+                for tag, i in (('B1', a), ('B2', b)):
+                    if not known_small(tag, i):
+                        return False, ('a crossing is reported without knowing that the box of piece %d of the %s curve is smaller than tol_deC: '
+                                       'its parameter is only known to +-%s' % (i, 'first' if tag == 'B1' else 'second', Fr(1, 2 ** (L + 1))))
+            if mode == 'soundness':
+                return True, ''
+            accepted = [(a, b) for a, b in cells if known_small('B1', a) and known_small('B2', b)]
+            if any(('P' in f.key() or 'Q' in f.key()) for f in path_zero_facts(it)):
+                return True, ''           # degenerate input (two pieces with identical control points): outside general position
+            groups = []
+            for pr in accepted:
+                for g in groups:
+                    if any(pr[0] == q[0] or pr[1] == q[1] for q in g):
+                        g.append(pr)
+                        break
+                else:
+                    groups.append([pr])
+            pkey = lambda a: Rat.csym('PT_%s' % Rat.const(mid(L, a)).key().replace('/', 'o').replace('*', '').replace(' ', ''))
+            for g in groups:
+                n = len([pr for pr in g if pr in got])
+                if n == 0:
+                    others = [q for q in got if q not in g]
+                    if others and all(path_sign(it, apply_fn('abs', pkey(g[0][0]) - pkey(q[0])) - TOL) == frozenset('-') for q in others):
+                        continue              # known to be closer than tol to a reported point: the same solution
+                    return False, 'the overlapping small pair(s) of pieces %s are not reported (reported: %s): a crossing is lost' % (g, sorted(got))
+                if n > 1:
+                    return False, ('the pairs of pieces %s share a piece (one crossing next to a piece boundary) and %d of them are reported: '
+                                   'the crossing is reported more than once' % (g, n))
             return True, ''
-        ob('R11.7').run(fbi, 'subdivision: roots overlap, of the children only halves %s overlap' % (ab,), th7, judge7, allowed_raises=('Exception',),
-                        opts={'call_hooks': {'bezier.bezier_bounding_box': bbox_hook, 'bezier.bezier_point': lambda it, a, k: Rat.csym('PT')},
-                              'ext_hooks': {'builtins.int': lambda it, a, k: 4, 'math.ceil': lambda it, a, k: Rat.sym('CEIL'),
-                                            'math.log': lambda it, a, k: Rat.sym('LOG')},
-                              'presign': [(TOLD, '+'), (Rat.sym('tol'), '+')]})
+        # the ancestors of the cells are known not to be small (otherwise the solver stops before reaching level L)
+        pres = [(TOLD, '+'), (TOL, '+')]
+        anc = set()
+        for lvl in range(L):
+            for tag in ('B1', 'B2'):
+                for i in range(2 ** lvl):
+                    anc.add(area(box_of(tag, lvl, i, L, cells)))
+        for a_ in sorted(anc):
+            pres.append((Rat.const(a_) - TOLD, '+'))
+        ob(rule).run(fbi, 'subdivision scenario%s: at level %d exactly the cells %s overlap' % ({'all': '', 'soundness': ' (soundness)', 'once': ' (reported once)'}[mode], L, cells), th7, judge7, allowed_raises=('Exception',),
+                     opts={'call_hooks': {'bezier.bezier_bounding_box': bbox_hook, 'bezier.bezier_point': pt_hook},
+                           'ext_hooks': {'builtins.int': lambda it, a, k: 5, 'math.ceil': lambda it, a, k: Rat.sym('CEIL'),
+                                         'math.log': lambda it, a, k: Rat.sym('LOG')},
+                           'presign': pres})
